@@ -8,7 +8,7 @@
 (* the initial configuration entries applied, persisted and snapshotted.        *)
 EXTENDS ZRaft
 
-CONSTANTS MaxTerm, MaxLog, MaxElect, MaxMsgs, MaxDup, MaxCrash, MaxProp, MaxConf,
+CONSTANTS MaxTerm, MaxLog, MaxElect, MaxMsgs, MaxDup, MaxCrash, MaxProp, MaxConf, MaxReads,
           ConfOps,      \* set of <<kind, replica>> the leader may propose
           FCrash, FSnap, FTransfer, FHeartbeat, FResend, FPartial
 
@@ -22,6 +22,7 @@ Seq12 == <<1, 2>>
 Seq1 == <<1>>
 OpsNone == {}
 OpsGrow == {<<"av", 3>>}
+OpsGrow2 == {<<"av", 2>>, <<"av", 3>>}
 OpsLearner == {<<"al", 3>>, <<"av", 3>>}
 OpsShrink == {<<"rm", 3>>, <<"rm", 2>>}
 OpsMixed == {<<"al", 3>>, <<"av", 3>>, <<"rm", 2>>}
@@ -40,7 +41,7 @@ MCInit == /\ st = [i \in Server |-> IF i \in InitVoters THEN BootSt(i) ELSE Blan
           /\ rdy = [i \in Server |-> NoRd] /\ net = {} /\ leaders = {} /\ grants = {}
           /\ gc = [k \in 1..NB |-> Ent(1, "av", InitVoterSeq[k])] /\ gct = [k \in 1..NB |-> 1]
           /\ gcq = [k \in 1..NB |-> {}] /\ gapp = [k \in 1..NB |-> Ent(1, "av", InitVoterSeq[k])]
-          /\ bad = {} /\ cnt = [elect |-> 0, dup |-> 0, crash |-> 0, prop |-> 0, conf |-> 0]
+          /\ bad = {} /\ cnt = [elect |-> 0, dup |-> 0, crash |-> 0, prop |-> 0, conf |-> 0, read |-> 0]
 
 Same(c) == cnt' = c
 Keep == UNCHANGED cnt
@@ -64,6 +65,7 @@ Beat(i, j) == FHeartbeat /\ Heartbeat(i, j) /\ Keep
 SnapTo(i, j) == FSnap /\ SendSnap(i, j) /\ Keep
 TakeSnap(i) == FSnap /\ Snapshot(i) /\ Keep
 Xfer(i, x) == FTransfer /\ Transfer(i, x) /\ Keep
+ReadReq(i) == /\ cnt.read < MaxReads /\ st[i].up /\ ReadIndex(i, cnt.read + 1) /\ cnt' = [cnt EXCEPT !.read = @ + 1]
 DoCrash(i) == /\ FCrash /\ cnt.crash < MaxCrash /\ Crash(i, FALSE) /\ cnt' = [cnt EXCEPT !.crash = @ + 1]
 DoRestart(i) == FCrash /\ dur[i] # NoDur /\ Restart(i) /\ Keep
 Take(i) == TakeReady(i, IF st[i].commit >= HFrom(st[i]) THEN st[i].commit ELSE 0) /\ Keep
@@ -77,13 +79,14 @@ DoApplyConf(i) == ApplyConf(i) /\ Keep
 
 \* labelled forms (arguments are simple values, so TLC's action labels can steer the driver)
 MsgTypes == {"MsgVote", "MsgVoteResp", "MsgPreVote", "MsgPreVoteResp", "MsgApp", "MsgAppResp", "MsgHeartbeat",
-             "MsgHeartbeatResp", "MsgSnap", "MsgTimeoutNow", "MsgProp", "MsgTransferLeader"}
+             "MsgHeartbeatResp", "MsgSnap", "MsgTimeoutNow", "MsgProp", "MsgTransferLeader", "MsgReadIndex",
+             "MsgReadIndexResp"}
 DeliverL(i, j, t) == \E m \in net : m.to = i /\ m.from = j /\ m.t = t /\ Deliver(i, m)
 DupDeliverL(i, j, t) == \E m \in net : m.to = i /\ m.from = j /\ m.t = t /\ DupDeliver(i, m)
 ConfReqL(i, k, x) == <<k, x>> \in ConfOps /\ ConfReq(i, <<k, x>>)
 
 MCNext ==
-  \/ \E i \in Server : Timeout(i) \/ StepDown(i) \/ ClientReq(i) \/ Join(i) \/ TakeSnap(i)
+  \/ \E i \in Server : Timeout(i) \/ StepDown(i) \/ ClientReq(i) \/ Join(i) \/ TakeSnap(i) \/ ReadReq(i)
                        \/ DoCrash(i) \/ DoRestart(i) \/ Take(i) \/ TakeNone(i) \/ PersistAll(i)
                        \/ PersistEntsOnly(i) \/ PersistHSAfter(i) \/ DoSend(i) \/ DoAdvance(i) \/ DoApplyConf(i)
   \/ \E i, x \in Server, k \in {"av", "al", "rm"} : ConfReqL(i, k, x)
